@@ -34,3 +34,19 @@ func VerifGUIDHex(id int64) string {
 	h := guid(id).Hex()
 	return string(h[:])
 }
+
+// VerifTopicGenerateIDFrom puts the topic's id factory into a state relative to the
+// current pseudo-millisecond (sequence seq, last timestamp now+tsOffset, last id the one
+// with sequence lastSeq at that timestamp) and calls Topic.GenerateID once.  It returns
+// that last id and what GenerateID handed out.
+func VerifTopicGenerateIDFrom(t *Topic, seq int64, tsOffset int64, lastSeq int64) (lastID int64, got MessageID) {
+	f := t.idFactory
+	f.Lock()
+	ts := time.Now().UnixNano()>>20 + tsOffset
+	f.sequence = seq
+	f.lastTimestamp = ts
+	f.lastID = guid(((ts - twepoch) << timestampShift) | (f.nodeID << nodeIDShift) | lastSeq)
+	lastID = int64(f.lastID)
+	f.Unlock()
+	return lastID, t.GenerateID()
+}
